@@ -44,6 +44,8 @@ type OriginResp struct {
 	ConnectErrors int   // this many attempts fail with a connection error first
 	ReadErrAt     int   // >= 0: body read fails after this many bytes
 	ReadSizes     []int // body handed out in reads of these sizes (then the rest)
+	TrackFetch    bool  // count this answer in the performer's fetch log
+	CountOnly     bool  // …but not as in flight (uncacheable answers are outside the single-flight claim)
 }
 
 // chunkReader hands the body out in the scripted read sizes (each Read = one Write of writeBody).
@@ -92,7 +94,33 @@ type Performer struct {
 	Contacts []Contact
 	failed   map[string]int
 	Limit    int // watchdog: contacts beyond this are refused
+	// fetch log: answered contacts whose body has not been read to the end yet
+	inFlight    int
+	MaxInFlight int
+	Fetches     int
 }
+
+type trackedBody struct {
+	io.ReadCloser
+	p    *Performer
+	once sync.Once
+}
+
+func (t *trackedBody) finish() {
+	t.once.Do(func() {
+		t.p.mu.Lock()
+		t.p.inFlight--
+		t.p.mu.Unlock()
+	})
+}
+func (t *trackedBody) Read(b []byte) (int, error) {
+	n, err := t.ReadCloser.Read(b)
+	if err != nil {
+		t.finish()
+	}
+	return n, err
+}
+func (t *trackedBody) Close() error { t.finish(); return t.ReadCloser.Close() }
 
 func NewPerformer() *Performer { return &Performer{failed: map[string]int{}, Limit: 300} }
 
@@ -102,6 +130,7 @@ func (p *Performer) Reset(script func(req *http.Request) *OriginResp) {
 	p.Script = script
 	p.Contacts = nil
 	p.failed = map[string]int{}
+	p.inFlight, p.MaxInFlight, p.Fetches = 0, 0, 0
 }
 
 func (p *Performer) Take() []Contact {
@@ -175,6 +204,16 @@ func (p *Performer) Do(req *http.Request) (*http.Response, error) {
 	} else {
 		resp.Body = ioutil.NopCloser(bytes.NewReader(r.Body))
 	}
+	if r.TrackFetch && r.CountOnly {
+		p.Fetches++
+	} else if r.TrackFetch {
+		p.Fetches++
+		p.inFlight++
+		if p.inFlight > p.MaxInFlight {
+			p.MaxInFlight = p.inFlight
+		}
+		resp.Body = &trackedBody{ReadCloser: resp.Body, p: p}
+	}
 	return resp, nil
 }
 
@@ -184,6 +223,7 @@ type World struct {
 	Cache   caching.Cache
 	now     int64
 	Perf    *Performer
+	Ctl     *Controller // when set, request goroutines carrying X-Verif-Actor are registered with it
 	srv     *httptest.Server
 	handler atomic.Value
 	Router  proxy.Router
@@ -225,6 +265,12 @@ func NewWorldAt(dir string, now int64) (*World, error) {
 	}
 	w.handler.Store(handlerBox{http.NotFoundHandler()})
 	w.srv = httptest.NewUnstartedServer(http.HandlerFunc(func(rw http.ResponseWriter, r *http.Request) {
+		if c := w.Ctl; c != nil {
+			if name := r.Header.Get("X-Verif-Actor"); name != "" {
+				c.Register(name)
+				defer c.Finished()
+			}
+		}
 		w.handler.Load().(handlerBox).h.ServeHTTP(rw, r)
 	}))
 	w.srv.Config.ErrorLog = nil
